@@ -294,7 +294,7 @@ pub fn enumerate(n: u32, part: usize, parts: usize, sink: &mut EnumSink) {
     // wide lists (the list argument has no documented length limit): nested intervals shrinking to a
     // point, with and without a final disjoint element; judged by max of starts / min of ends
     if part == parts - 1 {
-        for &len in &[1000usize, 60_000, 400_000, 6_000_000] {
+        for &len in &[1000usize, 60_000, 1_000_000] {
             for disjoint_tail in [false, true] {
                 let mut l: Vec<(u32, u32)> = (0..len).map(|k| ((k % 90_000) as u32, MAX - (k % 70_000) as u32)).collect();
                 if disjoint_tail {
@@ -313,7 +313,7 @@ pub fn enumerate(n: u32, part: usize, parts: usize, sink: &mut EnumSink) {
                 sink.case(&o, true, || format!("inter_list of {} intervals", l.len()));
             }
         }
-        sink.stats.exhaustive_spaces.push("inter_list on lists of 1 000, 60 000, 400 000 and 6 000 000 nested intervals (with / without an element disjoint from the rest)".to_string());
+        sink.stats.exhaustive_spaces.push("inter_list on lists of 1 000, 60 000 and 1 000 000 nested intervals, on an 8 MiB stack (with / without an element disjoint from the rest)".to_string());
     }
     if part == 0 {
         sink.stats.exhaustive_spaces.push(format!(
